@@ -22,8 +22,8 @@ Lemma upto_lf_len l a c : upto_lf l = (a, c) -> length l = length a + length c.
 Proof. intro H. apply upto_lf_app in H. subst l. apply app_length. Qed.
 
 (* holds for EVERY input, well-formed or not *)
-Lemma dechunk_loop_len fuel : forall ins acc c p,
-  dechunk_loop dz fuel ins acc = DOk c p -> length c + length p <= length acc + length ins.
+Lemma dechunk_loop_len sl fuel : forall ins acc c p,
+  dechunk_loop dz sl fuel ins acc = DOk c p -> length c + length p <= length acc + length ins.
 Proof.
   induction fuel as [|f IH]; intros ins acc c p H; [discriminate|].
   cbn [dechunk_loop] in H.
@@ -32,11 +32,10 @@ Proof.
   { inversion H; subst. lia. }
   destruct (int16 (strip lb)) as [n| |]; [|inversion H; subst; simpl; lia|discriminate].
   destruct n as [|q]; [inversion H; subst; simpl; lia|].
-  destruct (2 ^ 62 <=? N.pos q)%N; [discriminate|].
-  set (k := N.to_nat (N.pos q)) in *.
+  set (k := N.to_nat (N.min (N.pos q) (N.of_nat sl))) in *.
   destruct (upto_lf (skipn k r1)) as [term r3] eqn:U2. apply upto_lf_len in U2.
   pose proof (firstn_skipn k r1) as FS. apply (f_equal (@length _)) in FS. rewrite app_length in FS.
-  destruct (negb (length (firstn k r1) =? k) || negb (ends_lf term)).
+  destruct (negb (N.of_nat (length (firstn k r1)) =? N.pos q)%N || negb (ends_lf term)).
   - inversion H; subst. rewrite !app_length. lia.
   - apply IH in H. rewrite app_length in H. pose proof (Hdz (firstn k r1)). lia.
 Qed.
@@ -47,7 +46,7 @@ Proof.
   unfold recv. cbn [evs partial buf unm].
   destruct ev as [[|d0 d1]|]; cbn [snd buf partial app length].
   - specialize (IH p). simpl. lia.
-  - unfold dechunk. destruct (dechunk_loop dz _ (p ++ d0 :: d1) []) as [c p'|] eqn:D; cbn [snd buf partial].
+  - unfold dechunk. destruct (dechunk_loop dz _ _ (p ++ d0 :: d1) []) as [c p'|] eqn:D; cbn [snd buf partial].
     + apply dechunk_loop_len in D. rewrite app_length in D. cbn [length] in D.
       specialize (IH p'). rewrite !app_length. cbn [length]. lia.
     + specialize (IH p). simpl. lia.
